@@ -26,6 +26,9 @@ def make_label(rng: random.Random, alphabet: str, k: int, taken, prefix: str = '
             lab = rng.choice(KEYWORD_PREFIXES) + rng.choice(('', '_', '.')) + f'{k}'
         elif alphabet == 'at':
             lab = rng.choice(('blk@', 'a@b@', 'x.y@')) + f'g{k}'
+        elif alphabet == 'lookalike':
+            # spelled like the names the library gives its own temporaries and generated gates
+            lab = rng.choice(('tmp_', 'tmp_', 'new_', 's', 'subcircuit_')) + str(k if rng.random() < 0.5 else rng.randint(0, 12))
         elif alphabet == 'long':
             lab = 'gate_' + 'x' * rng.randint(8, 30) + f'[{k}]'
         else:
